@@ -58,10 +58,11 @@ impl List {
 
   /// Degrade this List into the more generic ObjectRef.
   /// This allows the string to meet the same interface
-  /// as the other managed objects
+  /// as the other managed objects. As when the value is boxed
+  /// the reference names the block the list currently lives in
   #[cfg(not(feature = "nan_boxing"))]
   pub fn degrade(self) -> ObjectRef {
-    ObjectRef::new(self.0.ptr())
+    ObjectRef::new(unsafe { NonNull::new_unchecked(self.0.to_usize() as *mut u8) })
   }
 
   /// Construct a `Tuple` from `NonNull<u8>`
